@@ -86,6 +86,14 @@ def payloads_of(r):
 
 
 def check_tree(ctx, r, indent=0, eol="\n", view="get_html_string"):
+    try:
+        return _check_tree(ctx, r, indent, eol, view)
+    except Exception as e:
+        ctx.violation("render-raises", "building/rendering raised %r" % e, {"recipe": r, "indent": indent, "eol": eol, "view": view})
+        return False
+
+
+def _check_tree(ctx, r, indent, eol, view):
     obj = gen.build(r)
     if view == "str":
         out = str(obj)
